@@ -9,17 +9,17 @@ Record SPInv (s : spst) : Prop := {
   sp_bodies : bodies s + pend_body s = nth s;
   sp_early : early s = false;
   sp_cur : forall a, cur s = Some a -> body a = true /\ mon a = true /\ (ceased a = true -> tokens a = 0 /\ started a = true)
-           /\ (entered_body a = false -> tokens a = 1 /\ started a = false /\ ceased a = false)
+           /\ (entered_body a = false -> tokens a = 0 /\ started a = false /\ ceased a = false)
 }.
 
-Definition spgood (c : scfg) : Prop := cease_inner c = true /\ per_act c = true /\ rearm c = true.
+Definition spgood (c : scfg) : Prop := cease_inner c = true /\ per_act c = true /\ rearm c = true /\ fresh_seen c = true.
 
 Lemma spinv_init : SPInv spinit.
 Proof. constructor; cbn; auto. intros a H; discriminate. Qed.
 
 Lemma spinv_step c s l s' : spgood c -> SPInv s -> spstep c s l = Some s' -> SPInv s'.
 Proof.
-  intros [G1 [G2 G3]] [A N B E C] H.
+  intros [G1 [G2 [G3 G4]]] [A N B E C] H.
   unfold spstep in H. destruct l; destruct (cur s) as [a|] eqn:Hc; try discriminate;
     unfold busy, pend_body in *; rewrite ?Hc in *.
   - injection H as <-. constructor; unfold busy, pend_body; cbn [cur queue nth conts arrived bodies early]; rewrite ?Hc; auto; lia.
@@ -27,7 +27,7 @@ Proof.
   - destruct (1 <=? queue s) eqn:Q; [|discriminate]. apply Nat.leb_le in Q. injection H as <-.
     constructor; unfold busy, pend_body; cbn [cur queue nth conts arrived bodies early entered_body];
       [lia | lia | lia | exact E | ].
-    intros a Ha. injection Ha as <-. cbn. rewrite G2, G3. cbn. repeat split; auto; intros; discriminate.
+    intros a Ha. injection Ha as <-. cbn. rewrite G2, G3, G4. cbn. repeat split; auto; intros; discriminate.
   - destruct (negb (entered_body a)) eqn:Q; [|discriminate]. apply negb_true_iff in Q. injection H as <-.
     destruct (C a eq_refl) as [Cb [Cm [Cc Ce]]]. destruct (Ce Q) as [T1 [T2 T3]]. rewrite Q in B.
     constructor; unfold busy, pend_body; cbn [cur queue nth conts arrived bodies early entered_body];
@@ -71,7 +71,7 @@ Proof.
     { destruct (entered_body a) eqn:X; auto. destruct (Ce eq_refl) as [_ [_ Y]]. congruence. }
     rewrite EB in B.
     constructor; unfold busy, pend_body; cbn [cur queue nth conts arrived bodies early];
-      [lia | lia | lia | rewrite E, T0; reflexivity | ].
+      [lia | lia | lia | rewrite E, T0, EB; reflexivity | ].
     intros a' Ha. discriminate.
 Qed.
 
@@ -102,7 +102,7 @@ Lemma sp_progress c s : spgood c -> spreach c s ->
   (forall a, cur s = Some a -> (entered_body a = true -> tokens a = 0) ->
      exists l s', (l = PStartFlows \/ l = PStartSeen \/ l = PCease \/ l = PContinue) /\ spstep c s l = Some s').
 Proof.
-  intros G R. destruct (spinv_reach _ _ G R) as [A N B E C]. destruct G as [G1 [G2 G3]]. split.
+  intros G R. destruct (spinv_reach _ _ G R) as [A N B E C]. destruct G as [G1 [G2 [G3 G4]]]. split.
   - intros H Q. unfold spstep. rewrite H. apply Nat.leb_le in Q. rewrite Q. eauto.
   - intros a H T. destruct (C a H) as [Cb [Cm [Cc Ce]]].
     destruct (entered_body a) eqn:EB.
@@ -115,9 +115,9 @@ Proof.
 Qed.
 
 (** the three defects of the pinned snapshot *)
-Definition sp_pinned_outer : scfg := {| cease_inner := false; per_act := true; rearm := true |}.
-Definition sp_pinned_single : scfg := {| cease_inner := true; per_act := false; rearm := true |}.
-Definition sp_pinned_norearm : scfg := {| cease_inner := true; per_act := true; rearm := false |}.
+Definition sp_pinned_outer : scfg := {| cease_inner := false; per_act := true; rearm := true; fresh_seen := true |}.
+Definition sp_pinned_single : scfg := {| cease_inner := true; per_act := false; rearm := true; fresh_seen := true |}.
+Definition sp_pinned_norearm : scfg := {| cease_inner := true; per_act := true; rearm := false; fresh_seen := true |}.
 Definition sp_labels := [PBegin; PStartFlows; PStartSeen; PFork; PDie; PCease; PContinue].
 Definition stuck_for (c : scfg) (s : spst) : bool :=
   forallb (fun l => match spstep c s l with Some _ => false | None => true end) sp_labels.
@@ -137,6 +137,16 @@ Lemma sp_refuted_norearm :
   exists s, spexec sp_pinned_norearm spinit
     [PEnter; PBegin; PStartFlows; PStartSeen; PDie; PCease; PContinue; PEnter; PBegin; PStartFlows; PStartSeen; PCease; PContinue] = Some s /\
     conts s = 2 /\ bodies s = 1.
+Proof. eexists. split; [vm_compute; reflexivity|]. vm_compute. auto. Qed.
+
+(* a monitor that remembers the start events of an earlier activation (a seeded change, not the pinned
+   code): on re-entry it can report completion before the inner start flow has registered — the
+   parent token continues although the content has not been entered *)
+Definition sp_stale_seen : scfg := {| cease_inner := true; per_act := true; rearm := true; fresh_seen := false |}.
+Lemma sp_refuted_stale_seen :
+  exists s, spexec sp_stale_seen spinit
+    [PEnter; PBegin; PStartFlows; PStartSeen; PDie; PCease; PContinue; PEnter; PBegin; PCease; PContinue] = Some s /\
+    conts s = 2 /\ bodies s = 1 /\ early s = true.
 Proof. eexists. split; [vm_compute; reflexivity|]. vm_compute. auto. Qed.
 
 Example sp_nonvacuous :
